@@ -48,7 +48,16 @@ type vcfsConcStep struct {
 	Kind  string `json:"kind"`
 }
 
+type vcfsDirOp struct {
+	W  int      `json:"w"`
+	Op string   `json:"op"`
+	P  []string `json:"p"`
+	Q  []string `json:"q"`
+}
+
 type vcfsConcScenario struct {
+	Dir  []vcfsDirOp `json:"dir"`  // mode "dirsched": a behaviour of CollFSDir.tla (operations in start order)
+	Reps int         `json:"reps"` // mode "dirsched": repetitions of the unscheduled variant
 	ID      int            `json:"id"`
 	Mode    string         `json:"mode"` // "schedule" | "random"
 	BS      int            `json:"bs"`
@@ -332,6 +341,38 @@ func (c *vcfsConc) quiet(done chan struct{}, gids func() []string) bool {
 	}
 }
 
+// vcfsOpenFlushing returns the flushing channels of the root directory's files that are still open
+// (in-package peek used for schedule fidelity only; files locked by a blocked call are skipped).
+func vcfsOpenFlushing(fs CollectionFileSystem) []<-chan struct{} {
+	var out []<-chan struct{}
+	cfs, ok := fs.(*collectionFileSystem)
+	if !ok {
+		return nil
+	}
+	root, ok := cfs.fileSystem.root.(*dirnode)
+	if !ok || !root.TryRLock() {
+		return nil
+	}
+	defer root.RUnlock()
+	for _, n := range root.inodes {
+		fn, ok := n.(*filenode)
+		if !ok || !fn.TryLock() {
+			continue
+		}
+		for _, seg := range fn.segments {
+			if ms, ok := seg.(*memSegment); ok && ms.flushing != nil {
+				select {
+				case <-ms.flushing:
+				default:
+					out = append(out, ms.flushing)
+				}
+			}
+		}
+		fn.Unlock()
+	}
+	return out
+}
+
 // vcfsAnyRunnable reports whether any goroutine other than the caller is running or runnable (then
 // somebody can still make progress, however slowly, and nothing is declared a deadlock).
 func vcfsAnyRunnable() bool {
@@ -439,17 +480,25 @@ func vcfsRunSchedule(scn vcfsConcScenario) []vcfsEvent {
 		}
 		return ch
 	}
-	for _, st := range scn.Steps {
+	done := map[int]bool{}
+	for si, st := range scn.Steps {
 		st := st
 		if dead {
 			break
 		}
 		switch st.Op {
 		case "seek", "read", "trunc", "write":
-			waitFor(busy[st.H])
+			// (the model has one foreground call in progress at a time)
+			for _, ch := range busy {
+				waitFor(ch)
+			}
+			waitFor(dirBusy)
 			op := vcfsOp{Op: st.Op, H: st.H, D: st.D, N: st.N, Off: st.Off, Wh: 0}
 			busy[st.H] = start(st.H, func() { c.exec(st.H, hs, op) })
 		case "flush", "marshal":
+			for _, ch := range busy {
+				waitFor(ch)
+			}
 			waitFor(dirBusy)
 			op := vcfsOp{Op: st.Op, D: "marshal", Tr: st.Short, P: nil}
 			if st.Op == "flush" {
@@ -459,17 +508,51 @@ func vcfsRunSchedule(scn vcfsConcScenario) []vcfsEvent {
 		case "flushend":
 			// the flush / marshal returns once its writes were released
 		case "put":
-			gp := gate.take(st.Data, 300*time.Millisecond)
+			if done[si] {
+				continue
+			}
+			gp := gate.take(st.Data, 40*time.Millisecond)
+			for tries := 0; gp == nil && tries < 4; tries++ {
+				// The commitBlock goroutines of one flush start in any order: if a write that
+				// the schedule releases LATER is waiting in front of the expected one (it holds
+				// the throttle), release that one now with its own outcome.
+				swapped := false
+				for j := si + 1; j < len(scn.Steps) && !swapped; j++ {
+					if scn.Steps[j].Op == "put" && !done[j] {
+						if other := gate.take(scn.Steps[j].Data, 0); other != nil {
+							other.rel <- scn.Steps[j].OK
+							done[j] = true
+							swapped = true
+						}
+					}
+				}
+				gp = gate.take(st.Data, 150*time.Millisecond)
+			}
 			if gp == nil {
 				unapplied++
 				continue
 			}
 			// Fidelity only (never a verdict): give the goroutine of the released write the time to
-			// re-lock the file and finish, which shows as the goroutine count dropping.
-			ng := runtime.NumGoroutine()
+			// re-lock the file and finish, which shows as one of the open flushing channels closing
+			// (a write whose segment was copied meanwhile is referenced by no segment: nothing to wait for).
+			open := vcfsOpenFlushing(c.fs)
 			gp.rel <- st.OK
-			for i := 0; i < 100 && runtime.NumGoroutine() >= ng; i++ {
-				time.Sleep(500 * time.Microsecond)
+			for i := 0; i < 200 && len(open) > 0; i++ {
+				closed := false
+				for _, ch := range open {
+					select {
+					case <-ch:
+						closed = true
+					default:
+					}
+				}
+				if closed {
+					break
+				}
+				time.Sleep(250 * time.Microsecond)
+			}
+			if len(open) == 0 {
+				time.Sleep(time.Millisecond)
 			}
 		}
 	}
@@ -623,9 +706,7 @@ func vcfsRunConcRandom(scn vcfsConcScenario) []vcfsEvent {
 							q = append(append([]string{}, od...), other)
 						}
 					}
-					if vcfsSamePath(full(dir), q) {
-						continue // (known finding KF-C08-1)
-					}
+					// (q may equal the current path: renaming onto itself must be a no-op - KF-C08-1, fixed)
 					c.exec(w, hs, vcfsOp{Op: "rename", P: full(dir), Q: q})
 					// follow what really happened
 					if _, err := c.fs.Stat(c.plainPath(full(dir))); err != nil {
@@ -716,6 +797,127 @@ func vcfsRunConcRandom(scn vcfsConcScenario) []vcfsEvent {
 	return c.events
 }
 
+// ---------------------------------------------------------------------------------------------
+// mode "dirsched": directory-level schedules of CollFSDir.tla.
+//
+// The model's steps inside an operation (lookup, lock, commit) cannot be scheduled from outside,
+// with one exception: Rename takes the filesystem-wide mutex AFTER it has looked up both
+// directories, and the in-package driver can hold that mutex.  So a schedule "Rename looks up its
+// directories; the other operation runs; Rename goes on" is replayed exactly: the driver holds the
+// mutex, starts Rename, waits until the runtime shows its goroutine waiting for a lock, runs the
+// other operation, releases the mutex.  For the other operations the two calls are simply started
+// together, Reps times on fresh filesystems (whatever interleaving happens is judged).
+func vcfsGoState(gid string) string {
+	buf := make([]byte, 1<<22)
+	buf = buf[:runtime.Stack(buf, true)]
+	for _, ln := range strings.Split(string(buf), "\n") {
+		if strings.HasPrefix(ln, "goroutine "+gid+" [") {
+			return ln
+		}
+	}
+	return ""
+}
+
+func vcfsDirToOp(d vcfsDirOp) vcfsOp {
+	switch d.Op {
+	case "create":
+		return vcfsOp{Op: "open", H: 50 + d.W, P: d.P, Acc: "rw", Cr: true}
+	case "marshal":
+		return vcfsOp{Op: "marshal", D: "marshal"}
+	}
+	return vcfsOp{Op: d.Op, P: d.P, Q: d.Q}
+}
+
+func vcfsRunDirOnce(scn vcfsConcScenario, rep int) []vcfsEvent {
+	base := vcfsScenario{ID: scn.ID, BS: scn.BS, RSeed: scn.RSeed + int64(rep), Mode: "dirsched"}
+	c := &vcfsConc{vcfsRun: vcfsNewRun(base), lastRet: time.Now()}
+	maxBlockSize = 4
+	concurrentWriters = 4
+	c.keep.onDone = func(p *vcfsPut, ok bool) { c.log(vcfsEvent{"ev": "putb", "k": p.K, "ok": ok, "n": len(p.Data)}) }
+	if c.start(vcfsEvent{"rep": rep, "dir": scn.Dir}) != nil {
+		return c.events
+	}
+	// the initial tree of CollFSDir.tla: file a = "x", empty directory s
+	hs0 := map[int]File{}
+	c.exec(0, hs0, vcfsOp{Op: "open", H: 1, P: []string{"a"}, Acc: "rw", Cr: true})
+	c.exec(0, hs0, vcfsOp{Op: "write", H: 1, D: "x"})
+	c.exec(0, hs0, vcfsOp{Op: "mkdir", P: []string{"s"}})
+	c.snap()
+	var wg sync.WaitGroup
+	gids := map[string]bool{}
+	var gmu sync.Mutex
+	run := func(d vcfsDirOp, started chan string) {
+		wg.Add(1)
+		go func() {
+			defer wg.Done()
+			g := vcfsGoID()
+			gmu.Lock()
+			gids[g] = true
+			gmu.Unlock()
+			if started != nil {
+				started <- g
+			}
+			c.exec(d.W, map[int]File{}, vcfsDirToOp(d))
+			gmu.Lock()
+			delete(gids, g)
+			gmu.Unlock()
+		}()
+	}
+	ren := -1
+	for i, d := range scn.Dir {
+		if d.Op == "rename" && ren < 0 {
+			ren = i
+		}
+	}
+	if ren >= 0 && len(scn.Dir) == 2 && rep == 0 {
+		mtx := c.fs.locker()
+		mtx.Lock()
+		started := make(chan string, 1)
+		run(scn.Dir[ren], started)
+		g := <-started
+		for i := 0; i < 2000; i++ {
+			st := vcfsGoState(g)
+			if strings.Contains(st, "Mutex.Lock") || strings.Contains(st, "semacquire") {
+				break
+			}
+			time.Sleep(time.Millisecond)
+		}
+		c.exec(scn.Dir[1-ren].W, map[int]File{}, vcfsDirToOp(scn.Dir[1-ren]))
+		mtx.Unlock()
+	} else {
+		for _, d := range scn.Dir {
+			run(d, nil)
+		}
+	}
+	done := make(chan struct{})
+	go func() { wg.Wait(); close(done) }()
+	ok := c.quiet(done, func() []string {
+		gmu.Lock()
+		defer gmu.Unlock()
+		out := []string{}
+		for g := range gids {
+			out = append(out, g)
+		}
+		return out
+	})
+	if ok {
+		c.finalChecks()
+	}
+	return c.events
+}
+
+func vcfsRunDirSched(scn vcfsConcScenario) []vcfsEvent {
+	var all []vcfsEvent
+	reps := scn.Reps
+	if reps < 1 {
+		reps = 1
+	}
+	for rep := 0; rep < reps; rep++ {
+		all = append(all, vcfsRunDirOnce(scn, rep)...)
+	}
+	return all
+}
+
 func TestVerifC13(t *testing.T) {
 	var scns []*vcfsConcScenario
 	vReadNDJSON(os.Getenv("VERIF_SCENARIOS"), func() interface{} {
@@ -736,6 +938,8 @@ func TestVerifC13(t *testing.T) {
 		var evs []vcfsEvent
 		if s.Mode == "schedule" {
 			evs = vcfsRunSchedule(*s)
+		} else if s.Mode == "dirsched" {
+			evs = vcfsRunDirSched(*s)
 		} else {
 			evs = vcfsRunConcRandom(*s)
 		}
